@@ -125,10 +125,24 @@ structure Cell (K : Type) where
   m : Bool
   d : String → DCell K
 
-def lookupD (ds : List (String × DObj K)) (k : String) : Option (DObj K) :=
+/-- dictionary lookup -/
+def lookupD {α : Type} (ds : List (String × α)) (k : String) : Option α :=
   match ds with
   | [] => none
   | (k', d) :: rest => if k' = k then some d else lookupD rest k
+
+/-- apply a function to every value of a dictionary -/
+def mapVals {α β : Type} (f : α → β) : List (String × α) → List (String × β)
+  | [] => []
+  | (k, d) :: rest => (k, f d) :: mapVals f rest
+
+/-- apply a partial function (`none` = an exception) to every value of a dictionary -/
+def mapDerivs {α β : Type} (g : α → Option β) : List (String × α) → Option (List (String × β))
+  | [] => some []
+  | (k, d) :: rest =>
+    match g d, mapDerivs g rest with
+    | some d', some r => some ((k, d') :: r)
+    | _, _ => none
 
 variable [Inhabited K]
 
@@ -169,18 +183,12 @@ def Obj.bto (o : Obj K) (s : Shape) : Option (Obj K) :=
     some ⟨s, fun i => o.vals (bidx o.shape i), o.rep, fun i => o.mbits (bidx o.shape i)⟩
   else none
 
-def mapM' {α β} (f : α → Option β) : List α → Option (List β)
-  | [] => some []
-  | a :: as => match f a, mapM' f as with
-    | some b, some bs => some (b :: bs)
-    | _, _ => none
-
 /-- recursive `broadcast_to`: the derivatives are broadcast too; broadcast objects are
     read-only and have an empty cache -/
 def Q.bto (x : Q K) (s : Shape) : Option (Q K) :=
   if s = x.obj.shape then some x
-  else match x.obj.bto s, mapM' (fun (p : String × DObj K) =>
-      (p.2.obj.bto s).map fun o => (p.1, (⟨o, true, .none⟩ : DObj K))) x.derivs with
+  else match x.obj.bto s, mapDerivs (fun (d : DObj K) =>
+      (d.obj.bto s).map fun o => (⟨o, true, .none⟩ : DObj K)) x.derivs with
     | some o, some ds => some ⟨x.cls, o, ds, true, .none⟩
     | _, _ => none
 
@@ -200,9 +208,9 @@ def singleObj (dv : K) : Obj K := ⟨[], fun _ => dv, .allT, fun _ => true⟩
     (a derivative of a Scalar is a Scalar) -/
 def Q.maskedSingle (df : Dflt K) (x : Q K) : Q K :=
   ⟨x.cls, singleObj (df.of x.cls),
-   x.derivs.map fun p => (p.1, (⟨singleObj df.scalar, true, .none⟩ : DObj K)), true, .none⟩
+   mapVals (fun _ => (⟨singleObj df.scalar, true, .none⟩ : DObj K)) x.derivs, true, .none⟩
 
-def Q.plainDerivs (x : Q K) : List (String × Obj K) := x.derivs.map fun p => (p.1, p.2.obj)
+def Q.plainDerivs (x : Q K) : List (String × Obj K) := mapVals (·.obj) x.derivs
 
 /-- `Qube.or_` of a mask with a mask array given as a function (qube.py:894-926) -/
 def Obj.orMask (o : Obj K) (m : Index → Bool) : Obj K :=
@@ -218,7 +226,7 @@ def maskWhere (o : Obj K) (ds : List (String × Obj K)) (m : Index → Bool) :
     Obj K × List (String × Obj K) :=
   match anyOver o.shape m with
   | false => (o, ds)
-  | true => (o.orMask m, ds.map fun p => (p.1, p.2.orMask m))
+  | true => (o.orMask m, mapVals (·.orMask m) ds)
 
 /-- `_masked_outside(obj, antimask)` (shrinker.py, repaired): every element outside the
     antimask masked; object and inverted antimask broadcast to a common shape first. -/
@@ -226,18 +234,18 @@ def maskedOutside (o : Obj K) (ds : List (String × Obj K)) (am : AM) :
     Option (Obj K × List (String × Obj K)) :=
   match am with
   | .all true => some (o, ds)
-  | .all false => some ({ o with rep := .allT }, ds.map fun p => (p.1, { p.2 with rep := .allT }))
+  | .all false => some ({ o with rep := .allT }, mapVals (fun d => { d with rep := .allT }) ds)
   | .arr a =>
     if a.shape = o.shape then some (maskWhere o ds fun i => !a.get i)
     else match bcast o.shape a.shape with
       | none => none
       | some s =>
-        match o.bto s, mapM' (fun (p : String × Obj K) => (p.2.bto s).map fun o' => (p.1, o')) ds with
+        match o.bto s, mapDerivs (fun (d : Obj K) => d.bto s) ds with
         | some o', some ds' => some (maskWhere o' ds' fun i => !a.get (bidx a.shape i))
         | _, _ => none
 
 def Q.withArrays (x : Q K) (r : Obj K × List (String × Obj K)) (ro : Bool) : Q K :=
-  ⟨x.cls, r.1, r.2.map fun p => (p.1, (⟨p.2, ro, .none⟩ : DObj K)), ro, .none⟩
+  ⟨x.cls, r.1, mapVals (fun o => (⟨o, ro, .none⟩ : DObj K)) r.2, ro, .none⟩
 
 /-- `insert_deriv` as far as shapes and caches go (qube.py:1473-1539): a derivative whose
     shape differs from the parent's is broadcast (new object, empty cache) -/
@@ -273,13 +281,17 @@ def reconcile (a : Arr Bool) (x : Q K) : Option (Nat × Arr Bool × Q K) :=
     | some x2, some a2 => some (extras, a2, x2)
     | _, _ => none
 
+/-- shrinker.py:81-85, the new mask: `np.zeros(antimask.shape, bool)[antimask]` for a False mask,
+    else `self._mask_[extras*(slice(None),) + (antimask, Ellipsis)]` -/
+def gatherMask (extras : Nat) (a2 : Arr Bool) (o : Obj K) : Arr Bool :=
+  match o.rep with
+  | .allF => npGather 0 a2 (Arr.const a2.shape false)
+  | _ => npGather extras a2 ⟨o.shape, o.mbits⟩
+
 /-- shrinker.py:81-104: gather mask and values, collapse, recurse into the derivatives -/
 def finishShrink (df : Dflt K) (recur : Arr Bool → DObj K → Option (DObj K)) (extras : Nat)
     (a2 : Arr Bool) (x2 : Q K) : Option (Q K) :=
-  -- the new mask
-  let gmask : Arr Bool := match x2.obj.rep with
-    | .allF => npGather 0 a2 (Arr.const a2.shape false)
-    | _ => npGather extras a2 ⟨x2.obj.shape, x2.obj.mbits⟩
+  let gmask : Arr Bool := gatherMask extras a2 x2.obj
   if allOver gmask.shape gmask.get then
     some { x2.maskedSingle df with back := .to x2.obj x2.plainDerivs }
   else
@@ -287,10 +299,7 @@ def finishShrink (df : Dflt K) (recur : Arr Bool → DObj K → Option (DObj K))
     let gvals := npGather extras a2 ⟨x2.obj.shape, x2.obj.vals⟩
     let obj : Obj K := ⟨gvals.shape, gvals.get, rep, gmask.get⟩
     -- derivative recursion
-    match mapM' (fun (p : String × DObj K) =>
-        match recur a2 p.2 with
-        | some d => (insertDeriv obj.shape d).map fun d' => (p.1, d')
-        | none => none) x2.derivs with
+    match mapDerivs (fun (d : DObj K) => (recur a2 d).bind (insertDeriv obj.shape)) x2.derivs with
     | none => none
     | some ds => some ⟨x2.cls, obj, ds, true, .to x2.obj x2.plainDerivs⟩
 
@@ -401,10 +410,7 @@ def unshrinkG (df : Dflt K) (recur : DObj K → Option (DObj K)) (cfg : Cfg) (am
     if x.obj.shape.getLastD 0 ≠ count a then none
     else
     let obj := scatterObj (df.of x.cls) a x.obj
-    match mapM' (fun (p : String × DObj K) =>
-        match recur p.2 with
-        | some d => (insertDeriv obj.shape d).map fun d' => (p.1, d')
-        | none => none) x.derivs with
+    match mapDerivs (fun (d : DObj K) => (recur d).bind (insertDeriv obj.shape)) x.derivs with
     | none => none
     | some ds => some ⟨x.cls, obj, ds, true, .none⟩
 
@@ -441,6 +447,13 @@ def lift2 (op : Op2 K) (a b : Q K) : Option (Q K) :=
 
 def lift1 (op : Op1 K) (a : Q K) : Q K :=
   Q.ofCells (op.cls a.cls) a.obj.shape (op.keys a.keys) fun i => op.f a.keys (a.cellAt i)
+
+/-- apply a partial function to every operand of an environment -/
+def mapOpt {α β : Type} (f : α → Option β) : List α → Option (List β)
+  | [] => some []
+  | a :: as => match f a, mapOpt f as with
+    | some b, some bs => some (b :: bs)
+    | _, _ => none
 
 /-- element-wise expression trees -/
 inductive Expr (K : Type) where
